@@ -47,6 +47,10 @@ C = {
          "prev<cur<new and inside each source must be preserved and dense.", TRUST + " Uses the cfg(aquavm_verif) event sink.", "ordering monitor over hook events", "5/C12"),
  "C13": ("Event sink reports every stream append, canon snapshot and fold visit; checked: no double insertion, no lost append, "
          "snapshots equal appends so far, folds visit each value at most once and every generation head.", TRUST + " Uses the cfg(aquavm_verif) event sink.", "exactly-once monitor over hook events", "5/C13"),
+ "C18": ("Differential on the real interpreter: each generated instruction (15 kinds of catchable, uncatchable, succeeding and waiting "
+         "instructions) in a generated context is driven to the end twice on one peer, bare and wrapped in (xor F observer); the observer "
+         "must be requested exactly for catchable failures and must receive the code and message the bare run reports.",
+         TRUST + " The class of a failure is read from the documented code ranges of the bare run.", "caught/uncaught differential on the real interpreter", "5/C18"),
  "C19": ("Per-run routing rules (no self/duplicate next peers, requests only at literal target, new results attributed to the "
          "running peer, sent states imply a next peer) and bounded-progress quiescence check after merging at an observer.",
          TRUST + " Quiescence is judged as bounded progress (200 steps) on failure-free scripts.", "routing monitor + bounded-progress check", "5/C19"),
@@ -76,7 +80,6 @@ NOT_BUILT = {
  "C15": "not claimed: the incompatible-versions fault enumeration (DESIGN 5/C15) was not built in the time available",
  "C16": "not claimed: the sequential reference evaluator (DESIGN 5/C16) was not built in the time available",
  "C17": "not claimed: needs the sequential reference evaluator with provenance (DESIGN 5/C17), not built",
- "C18": "not claimed: needs the sequential reference evaluator (DESIGN 5/C18), not built",
 }
 
 checks = []
